@@ -21,13 +21,39 @@ func VerifC20WatchSet() {
 	ws := NewWatchSet()
 	chans := make([]chan struct{}, n)
 	closeAt := make([]int, n) // -1 never, 0 before the call, k>0 at time k
+	// MERGE=1: a member enters the set directly (Add) or through another set that is merged in;
+	// a set that was cleared before being merged contributes nothing
+	other, junk := NewWatchSet(), NewWatchSet()
 	for i := range chans {
 		chans[i] = make(chan struct{})
-		ws.Add(chans[i])
+		if vnd.Param("MERGE", 0) == 1 && vnd.Bool("via-merge") {
+			other.Add(chans[i])
+			vnd.Cover("C20.merged-member")
+		} else {
+			ws.Add(chans[i])
+		}
 		closeAt[i] = vnd.IntRange("closeAt", -1, TMAX)
 	}
 	outsider := make(chan struct{})
 	close(outsider) // closed, but never added
+	junkCh := make(chan struct{})
+	close(junkCh) // closed, added to a set that is cleared before it is merged
+	if vnd.Param("MERGE", 0) == 1 {
+		junk.Add(junkCh)
+		junk.Clear()
+		ws.Merge(other)
+		ws.Merge(junk)
+		for i := range chans {
+			vnd.Assert(ws.Has(chans[i]), "C20.merge.member-missing")
+		}
+		vnd.Assert(!ws.Has(junkCh) && !junk.Has(junkCh), "C20.clear.member-survived")
+		var all []<-chan struct{}
+		for i := range chans {
+			all = append(all, chans[i])
+		}
+		vnd.Assert(ws.HasAny(all) == (len(chans) > 0), "C20.hasany.members")
+		vnd.Assert(!ws.HasAny([]<-chan struct{}{outsider, junkCh}), "C20.hasany.non-members")
+	}
 	cancelAt := vnd.IntRange("cancelAt", -1, TMAX)
 	settle := vnd.IntRange("settle", 0, 1) * 2 // 0 or 2 units
 
@@ -107,6 +133,7 @@ func VerifC20WatchSet() {
 		}
 	}
 	vnd.Assert(!ws.Has(outsider), "C20.outsider")
+	vnd.Assert(!ws.Has(junkCh), "C20.cleared-channel-is-member")
 	if err == nil {
 		vnd.Assert(len(res) > 0, "C20.nil-error-empty-result")
 		vnd.Cover("C20.result")
